@@ -321,10 +321,12 @@ theorem range_tx {hist : List TxResult} {q : Query} (hq : CleanQuery hist q) (W 
   -- meaning of the interval
   have hsem : ∀ m, inR W m = Ck.all (cSem · m) := by
     intro m
-    rw [inR_eq, spec.isFold W hW]
-    simp only [rangeOf_key]
-    exact rangeOf_sem (rangeConds q) W.key (fun c hc => (hcs c hc).1) hok (hq.oneLower W.key)
+    have hW' : W = rangeOf (rangeConds q) W.key := spec.isFold W hW
+    rw [inR_eq]
+    have := rangeOf_sem (rangeConds q) W.key (fun c hc => (hcs c hc).1) hok (hq.oneLower W.key)
       (hq.oneUpper W.key) m
+    rw [← hW'] at this
+    exact this
   have hholds : ∀ c ∈ Ck, (condHoldsG c r = true ↔ ∃ m ∈ ms, cSem c m = true) := by
     intro c hc
     obtain ⟨hcr, hck⟩ := List.mem_filter.mp hc
@@ -380,5 +382,159 @@ theorem height_pinned {hist : List TxResult} (hres : NoReserved hist) (q : Query
       rw [h] at hv
       exact dec_inj hv
   · rw [if_neg hk] at he; cases he
+
+
+/-! ### each scan of a clean query succeeds and contributes a known set of hashes -/
+
+/-- scan of a merged interval -/
+theorem scan_range_ok {hist : List TxResult} (hc : CleanHist H hist) {q : Query} (hq : CleanQuery hist q)
+    (W : QRange) (hW : W ∈ lookForRanges q) :
+    ∃ hs, valHashes (rangeRows (addBatch H [] hist) W) = some hs ∧
+      ∀ x, x ∈ hs ↔ ∃ r ∈ hist, H r.tx = x ∧ ∃ m, (W.key, dec m) ∈ attrsAll r ∧ inR W m = true := by
+  have spec := lookForRanges_spec q
+  obtain ⟨c0, hc0, hk0⟩ := spec.onlyKeys W hW
+  obtain ⟨hc0q, hr0⟩ := List.mem_filter.mp hc0
+  obtain ⟨hsep, _, h⟩ := hq.conds c0 hc0q
+  have hok : RangeCondOK c0 := by
+    rcases h with ⟨hop, _⟩ | ⟨hop, _⟩ | ⟨hop, _⟩ | ⟨hop, _⟩ | ⟨_, hok⟩
+    · rw [hop] at hr0; cases hr0
+    · rw [hop] at hr0; cases hr0
+    · rw [hop] at hr0; cases hr0
+    · rw [hop] at hr0; cases hr0
+    · exact hok
+  obtain ⟨n0, hn0, _, _⟩ := hok
+  have hcanK : CanonKey hist W.key := by
+    rw [← hk0]; exact canonKey_of c0 n0 hn0 (hq.canon c0 hc0q)
+  have hsepW : sep ∉ W.key := by rw [← hk0]; exact hsep
+  have hrows := mem_rangeRows H hc W hsepW hcanK
+  obtain ⟨hs, ev, hmem⟩ := valHashes_all_hash (rangeRows (addBatch H [] hist) W) (by
+    intro row hrow
+    obtain ⟨rr, _, kv, _, _, _, rfl⟩ := (hrows row).mp hrow
+    exact ⟨_, rfl⟩)
+  refine ⟨hs, ev, ?_⟩
+  intro x
+  rw [hmem]
+  constructor
+  · rintro ⟨row, hrow, hx⟩
+    obtain ⟨rr, hrr, kv, hkv, hk1, ⟨m, hv, hin⟩, rfl⟩ := (hrows row).mp hrow
+    simp only [secRow, Val.hash.injEq] at hx
+    have : kv = (W.key, dec m) := Prod.ext hk1 hv
+    exact ⟨rr, hrr, hx, m, by rw [← this]; exact hkv, hin⟩
+  · rintro ⟨r, hr, hx, m, hkv, hin⟩
+    exact ⟨secRow H r (W.key, dec m), (hrows _).mpr ⟨r, hr, (W.key, dec m), hkv, rfl, ⟨m, rfl, hin⟩, rfl⟩,
+      by simp [secRow, hx]⟩
+
+/-- scan of a non-range condition under the height narrowing `h` -/
+theorem scan_cond_ok {hist : List TxResult} (hc : CleanHist H hist) {q : Query} (hq : CleanQuery hist q)
+    (c : Cond) (hcq : c ∈ otherConds q) (h : Nat) :
+    ∃ rows hs, condRows (addBatch H [] hist) c h = some rows ∧ valHashes rows = some hs ∧
+      ∀ x, x ∈ hs ↔ ∃ r ∈ hist, H r.tx = x ∧ condHoldsG c r = true ∧ (c.op = .eq → h > 0 → r.height = h) := by
+  obtain ⟨hcq', hnr⟩ := List.mem_filter.mp hcq
+  have hnr : isRangeOp c.op = false := by simpa using hnr
+  obtain ⟨rows, e, hm⟩ := condRows_clean H hc c (hq.conds c hcq') hnr h
+  obtain ⟨hs, ev, hmem⟩ := valHashes_all_hash rows (by
+    intro row hrow
+    obtain ⟨r, _, kv, _, _, _, _, rfl⟩ := (hm row).mp hrow
+    exact ⟨_, rfl⟩)
+  refine ⟨rows, hs, e, ev, ?_⟩
+  intro x
+  rw [hmem]
+  constructor
+  · rintro ⟨row, hrow, hx⟩
+    obtain ⟨r, hr, kv, hkv, hk, ht, hh, rfl⟩ := (hm row).mp hrow
+    simp only [secRow, Val.hash.injEq] at hx
+    exact ⟨r, hr, hx, (condHoldsG_iff c r).mpr ⟨kv, hkv, hk, ht⟩, hh⟩
+  · rintro ⟨r, hr, hx, hh, hn⟩
+    obtain ⟨kv, hkv, hk, ht⟩ := (condHoldsG_iff c r).mp hh
+    exact ⟨secRow H r kv, (hm _).mpr ⟨r, hr, kv, hkv, hk, ht, hn, rfl⟩, by simp [secRow, hx]⟩
+
+theorem hashesOf_some (rows : DB) (hs : List Bytes) (h : valHashes rows = some hs) :
+    hashesOf (some rows) = hs := by simp [hashesOf, h]
+
+/-- `Search` on a clean query: the intersection of the scans of the merged intervals and of the
+other conditions -/
+theorem search_clean_compute {hist : List TxResult} (hc : CleanHist H hist) {q : Query}
+    (hq : CleanQuery hist q) :
+    ∃ L, search (addBatch H [] hist) q = .hashes L ∧
+      ∀ x, x ∈ L ↔
+        (∀ W ∈ lookForRanges q, ∃ r ∈ hist, H r.tx = x ∧ ∃ m, (W.key, dec m) ∈ attrsAll r ∧ inR W m = true) ∧
+        (∀ c ∈ otherConds q, ∃ r ∈ hist, H r.tx = x ∧ condHoldsG c r = true ∧
+          (c.op = .eq → (lookForHeight q).getD 0 > 0 → r.height = (lookForHeight q).getD 0)) := by
+  let db := addBatch H [] hist
+  let h := (lookForHeight q).getD 0
+  have h1 : conditionsOK q = true := by
+    simp only [conditionsOK, List.all_eq_true]
+    intro c hcq
+    obtain ⟨_, _, hcase⟩ := hq.conds c hcq
+    rcases hcase with ⟨_, s, hs, _⟩ | ⟨_, n, hn, hle⟩ | ⟨_, hn, _⟩ | ⟨_, s, hs⟩ | ⟨_, n, hn, hle, _⟩
+    · simp [hs]
+    · simp [hn, hle]
+    · simp [hn]
+    · simp [hs]
+    · simp [hn, hle]
+  have h2 : lookForHash q = none := by
+    simp only [lookForHash, List.findSome?_eq_none_iff]
+    intro c hcq
+    have := (hq.conds c hcq).2.1
+    simp [this]
+  have hfR : ∀ W ∈ lookForRanges q, ∃ rows hs, (some (rangeRows db W) : Option DB) = some rows ∧ valHashes rows = some hs := by
+    intro W hW
+    obtain ⟨hs, ev, _⟩ := scan_range_ok H hc hq W hW
+    exact ⟨_, hs, rfl, ev⟩
+  have hfC : ∀ c ∈ otherConds q, ∃ rows hs, condRows db c h = some rows ∧ valHashes rows = some hs := by
+    intro c hcq
+    obtain ⟨rows, hs, e, ev, _⟩ := scan_cond_ok H hc hq c hcq h
+    exact ⟨rows, hs, e, ev⟩
+  have e1 := fold_scanStep (lookForRanges q) (fun W => some (rangeRows db W)) hfR none
+  have e2 := fold_scanStep (otherConds q) (fun c => condRows db c h) hfC
+    (interFold none ((lookForRanges q).map fun W => hashesOf (some (rangeRows db W))))
+  rw [interFold_append] at e2
+  -- the list of scans is not empty
+  have hne : ((lookForRanges q).map fun W => hashesOf (some (rangeRows db W))) ++
+      ((otherConds q).map fun c => hashesOf (condRows db c h)) ≠ [] := by
+    obtain ⟨c0, hc0⟩ := List.exists_mem_of_ne_nil q hq.nonempty
+    by_cases hr0 : isRangeOp c0.op = true
+    · have : c0 ∈ rangeConds q := List.mem_filter.mpr ⟨hc0, hr0⟩
+      obtain ⟨W, hW, _⟩ := (lookForRanges_spec q).covers c0 this
+      intro e
+      have := List.append_eq_nil_iff.mp e
+      have h' := List.map_eq_nil_iff.mp this.1
+      rw [h'] at hW; cases hW
+    · have : c0 ∈ otherConds q := List.mem_filter.mpr ⟨hc0, by simpa using hr0⟩
+      intro e
+      have := List.append_eq_nil_iff.mp e
+      have h' := List.map_eq_nil_iff.mp this.2
+      rw [h'] at this
+      rename_i hmem; rw [h'] at hmem; cases hmem
+  obtain ⟨L, eL, mL⟩ := interFold_none _ hne
+  refine ⟨L, ?_, ?_⟩
+  · simp only [search, h1, h2, Bool.not_true, Bool.false_eq_true, if_false]
+    show (match (otherConds q).foldl (fun st c => scanStep st (condRows db c h))
+        ((lookForRanges q).foldl (fun st r => scanStep st (some (rangeRows db r))) (.ok none)) with
+      | .error e => e | .ok none => .hashes [] | .ok (some hs) => .hashes hs) = .hashes L
+    rw [e1, e2, eL]
+  · intro x
+    rw [mL]
+    simp only [List.mem_append, List.mem_map]
+    constructor
+    · intro hall
+      refine ⟨?_, ?_⟩
+      · intro W hW
+        obtain ⟨hs, ev, hm⟩ := scan_range_ok H hc hq W hW
+        have := hall (hashesOf (some (rangeRows db W))) (Or.inl ⟨W, hW, rfl⟩)
+        rw [hashesOf_some _ _ ev] at this
+        exact (hm x).mp this
+      · intro c hcq
+        obtain ⟨rows, hs, e, ev, hm⟩ := scan_cond_ok H hc hq c hcq h
+        have := hall (hashesOf (condRows db c h)) (Or.inr ⟨c, hcq, rfl⟩)
+        rw [e, hashesOf_some _ _ ev] at this
+        exact (hm x).mp this
+    · rintro ⟨hR, hC⟩ hs' (⟨W, hW, rfl⟩ | ⟨c, hcq, rfl⟩)
+      · obtain ⟨hs, ev, hm⟩ := scan_range_ok H hc hq W hW
+        rw [hashesOf_some _ _ ev]
+        exact (hm x).mpr (hR W hW)
+      · obtain ⟨rows, hs, e, ev, hm⟩ := scan_cond_ok H hc hq c hcq h
+        rw [e, hashesOf_some _ _ ev]
+        exact (hm x).mpr (hC c hcq)
 
 end Tmv.Index
